@@ -85,7 +85,7 @@ def drive_case(case):
     alone = [_convert([d], False) for d in docs]
     o = {"id": case["id"], "kinds": kinds, "collect": case["collect"], "corr": case["corr"], "alone": alone}
     if case["corr"] != "none":
-        c = corr_doc(len(kinds) + 1, False)
+        c = corr_doc(len(kinds) + 1, case["corr"] == "gen")
         o["corr_alone"] = _convert([docs[0], c], False)
         docs = docs + [c]
     else:
@@ -116,7 +116,7 @@ def run(tier: str, seed: int) -> int:
         distinct_nontrivial=nontrivial,
         rule="TLC (Gen_C08) enumerates every sequence of 1..3 (thorough 4) rules over 7 kinds (one/two conditions, "
         "pipeline-state-setting, failing in the pipeline, on an unresolved placeholder, on an unsupported value, on a "
-        "missing detection) x collect on/off x with/without a non-generating correlation rule over rule 1; every "
+        "missing detection) x collect on/off x without / with a non-generating / generating correlation rule over rule 1; every "
         "collection is converted with a stateful pipeline and output format and compared with per-rule fresh "
         "conversions; non-trivial = at least two rules of which at least one fails",
         samples=samples,
